@@ -15,7 +15,8 @@ parse_url ─► PoolManager.urlopen ─► (Proxy)Manager.connection_from_host 
                      │                          ─► HTTP(S)ConnectionPool._new_conn ─► HTTPConnection(host, port)
                      │                               `_dns_host` is dialled (create_connection strips `[]`)
                      │                               `host` (getter: rstrip('.')) is used for Host / SNI
-                     │                          ─► tunnel: set_tunnel(_tunnel_host, port) / CONNECT
+                     │                          ─► tunnel: set_tunnel(_tunnel_host, port) / CONNECT; the request
+                     │                               inside computes `Host` from `_tunnel_host` without brackets
                      │                          ─► TLS: server_hostname normalisation
                      └► target: u.request_uri (origin form, re-encoded by the pool) or the absolute URL
                         ─► HTTPConnection.request ─► http.client.putrequest (Host header)   (U3.Wire)
@@ -80,6 +81,10 @@ def stripBr (s : Str) : Str := ((s.dropWhile isBr).reverse.dropWhile isBr).rever
 `if host and host.startswith("[") and host.endswith("]"): host = host[1:-1]` -/
 def unbracket (h : Str) : Str :=
   if h.head? = some 91 && h.getLast? = some 93 then h.tail.dropLast else h
+
+/-- `parsed_url._replace(auth=None, fragment=None).url`: the absolute-form request target
+`HTTPConnectionPool.urlopen` sends — the URL without userinfo and fragment -/
+def absTarget (u : Url.Url) : Str := ({ u with auth := none, fragment := none } : Url.Url).render
 
 /-- `s[: s.rfind("%")]` when `"%" in s` -/
 def cutLastPct (s : Str) : Str :=
@@ -217,7 +222,8 @@ def methodGet : Str := [71, 69, 84]
 
 /-- `HTTPConnection.request(method, url, headers=…)` as in `Wire.prepare`, minus its first test (the
 `_validate_host` of `HTTPConnection.__init__`, which concerns the host the connection was *built*
-for — inside a tunnel that is the proxy, while `Cfg.host` is the tunnel host `putrequest` uses) -/
+for — inside a tunnel that is the proxy, while `Cfg.host` is the tunnel host `putrequest` uses:
+`_tunnel_host` with one enclosing pair of brackets removed) -/
 def prepareNoValidate (cfg : Wire.Cfg) (meth url : Str) (headers : List (Str × Str)) :
     Except Wire.Exc Wire.Prepared :=
   match Wire.putrequest cfg meth url ((Wire.headerKeys headers).contains (lit "host"))
@@ -297,9 +303,9 @@ def send (proxy : Option ProxyCfg) (u : Url.Url) (pl : Pool) (carried : List (St
   -- own address, or `urlsplit(url).netloc`): not modelled
   if forwarding && (match u.netloc with | some n => n.isEmpty | none => true) then .error .unmodelled else
   -- PoolManager.urlopen: absolute form through a forwarding proxy, else `u.request_uri`;
-  -- HTTPConnectionPool.urlopen: `_encode_target(url)` / `parse_url(url).url`
+  -- HTTPConnectionPool.urlopen: `_encode_target(url)` / `parse_url(url)._replace(auth=None, fragment=None).url`
   let target : Except Exc Str :=
-    if forwarding then .ok u.render
+    if forwarding then .ok (absTarget u)
     else if u.requestUri.head? = some 47 then
       (match Url.encodeTarget u.requestUri with
        | .ok t => .ok t
@@ -334,6 +340,9 @@ def send (proxy : Option ProxyCfg) (u : Url.Url) (pl : Pool) (carried : List (St
           -- set_tunnel(host=self._tunnel_host, port=self.port): `.encode("idna")` for the Host line
           if !pl.tunnelHost.all (· < 128) then .error .unmodelled
           else if !idnaCodecOk pl.tunnelHost then .error .unicodeError
+          -- a tunnel host "[]" (no host `parse_url` returns) is empty once its brackets are hidden, and
+          -- `http.client` then computes `Host` from the proxy's address: not modelled
+          else if (unbracket pl.tunnelHost).isEmpty then .error .unmodelled
           else
             match dial dnsHost connPort with
             | .error e => .error e
@@ -344,7 +353,9 @@ def send (proxy : Option ProxyCfg) (u : Url.Url) (pl : Pool) (carried : List (St
                 | none => []
               -- `server_hostname = self._tunnel_host`, then `.rstrip(".")`
               let tls := proxyTls ++ [sniNorm (rstripDot pl.tunnelHost)]
-              let cfg : Wire.Cfg := ⟨pl.tunnelHost, pl.port, dflt, 16384, .error .assertionError, .error .unicodeError⟩
+              -- `HTTPConnection.putrequest` hides the brackets of `_tunnel_host` from `http.client`
+              -- while it computes the `Host` header (the CONNECT request above keeps them)
+              let cfg : Wire.Cfg := ⟨unbracket pl.tunnelHost, pl.port, dflt, 16384, .error .assertionError, .error .unicodeError⟩
               match prepareNoValidate cfg methodGet target headers with
               | .error e => .error (ofWireExc e)
               | .ok p =>
